@@ -7,6 +7,7 @@ package interp
 import (
 	"fmt"
 	"go/types"
+	"sort"
 	"strings"
 
 	"golang.org/x/tools/go/ssa"
@@ -328,28 +329,33 @@ func init() {
 		return *p
 	})
 
-	// sort.Slice / SliceStable: insertion sort driven by the target's less
-	// function (stable, so valid for both).
-	sl := func(fr *frame, args []value) value {
-		s := args[0].(iface).v.([]value)
-		less := func(i, j int) bool {
-			switch r := call(fr.i, fr, 0, args[1], []value{i, j}).(type) {
-			case bool:
-				return r
-			case symBool:
-				return X.decide(r.t)
+	// sort.Slice / SliceStable: the host's own implementation (the same
+	// toolchain builds the engine and the code under test, so it is the
+	// algorithm the native build runs - which matters when the comparison
+	// function is not a consistent order) driven by the target's less
+	// function over the engine's slice; a symbolic comparison result forks.
+	mkSort := func(stable bool) externalFn {
+		return func(fr *frame, args []value) value {
+			s := args[0].(iface).v.([]value)
+			less := func(i, j int) bool {
+				switch r := call(fr.i, fr, 0, args[1], []value{i, j}).(type) {
+				case bool:
+					return r
+				case symBool:
+					return X.decide(r.t)
+				}
+				panic(unsupported("sort.Slice less result"))
 			}
-			panic(unsupported("sort.Slice less result"))
-		}
-		for i := 1; i < len(s); i++ {
-			for j := i; j > 0 && less(j, j-1); j-- {
-				s[j], s[j-1] = s[j-1], s[j]
+			if stable {
+				sort.SliceStable(s, less)
+			} else {
+				sort.Slice(s, less)
 			}
+			return nil
 		}
-		return nil
 	}
-	E("sort.Slice", sl)
-	E("sort.SliceStable", sl)
+	E("sort.Slice", mkSort(false))
+	E("sort.SliceStable", mkSort(true))
 
 	// internal/bytealg and friends over byte sequences with symbolic bytes.
 	E("internal/bytealg.IndexByteString", func(fr *frame, args []value) value { return indexByteSeq(byteSeq(args[0]), args[1]) })
